@@ -8,7 +8,7 @@ import numpy as np
 
 from simkit import simio
 from simkit.engine import Refuse, Violation
-from simkit.worldbase import BUFS, CHUNKS, WorldBase
+from simkit.worldbase import BUFS, CHUNKS, LINE_FAULTS, WorldBase
 from worlds.common import Config
 
 PATHS = ("neighborlist.dat", "nl_a.dat", "nl_b.dat", "w_a.dat")
@@ -90,7 +90,7 @@ class World(WorldBase):
             "hold_max": 0,
         }
         if batch == "fault":
-            kinds = ["interrupt", "oserror_write", "short_write", "short_read", "oserror_read"]
+            kinds = ["interrupt", "oserror_write", "short_write", "short_read", "oserror_read", "interrupt_line", "alloc_line"]
             sw["faults"] = rng.sample(kinds, rng.randint(1, 4))
             sw["hold_max"] = rng.choice([0, 1, 3])
             sw["p_fault"] = rng.choice([0.15, 0.3])
@@ -169,10 +169,14 @@ class World(WorldBase):
                 # default, and values around which a buffer might be sized
                 pool = [max(1, maxcn - 1), maxcn, maxcn + 1, 200, None, 65, 100, 129]
             op = {"op": "read_frame", "h": h, "nmax": rng.choice(pool)}
-            fk = [k for k in sw["faults"] if k in ("short_read", "oserror_read", "interrupt")]
+            fk = [k for k in sw["faults"] if k in ("short_read", "oserror_read", "interrupt", "interrupt_line", "alloc_line")]
             cfg = self.configs[self.files[d["path"]]["cfg"]]
             if fk and rng.random() < sw.get("p_fault", 0):
                 op["fault"] = {"kind": rng.choice(fk), "at": rng.randint(1, cfg.N + 1)}
+                if op["fault"]["kind"] in LINE_FAULTS:
+                    # between two source lines of the reader (about seven per row; no dry run: a
+                    # forked child would share the handle's file offset with this process)
+                    op["fault"]["at"] = rng.randint(1, 7 * cfg.Ns[d["cursor"]] + 12)
             else:
                 self.gen_env(rng, op)
                 others = sorted(x for x in readable if x != h)
@@ -282,13 +286,19 @@ class World(WorldBase):
         dflt = rng.random() < sw["p_default_args"]
         op["default_ppp"] = bool(dflt and cfg.ndim == 3 and all(cfg.ppp == 1))
         op["default_path"] = bool(dflt and op["path"] == "neighborlist.dat")
-        fk = [k for k in sw["faults"] if k in ("interrupt", "oserror_write", "short_write")]
+        fk = [k for k in sw["faults"] if k in ("interrupt", "oserror_write", "short_write", "interrupt_line", "alloc_line")]
         if fk and rng.random() < sw.get("p_fault", 0) * 2:
             fkind = rng.choice(fk)
-            nev = self.dry_events(lambda: self.invoke_producer(op))
-            op["fault"] = {"kind": fkind, "at": self.pick_fault_event(rng, nev),
-                           "hold": rng.randint(0, sw["hold_max"])}
-            self.ctx.probe("dry_runs")
+            if fkind in LINE_FAULTS:
+                # cancelled (or out of memory) between two source lines of the producer
+                nln = self.dry_lines(lambda: self.invoke_producer(op))
+                op["fault"] = {"kind": fkind, "at": rng.randint(1, max(1, nln)), "hold": rng.randint(0, sw["hold_max"])}
+                self.ctx.probe("dry_runs_lines")
+            else:
+                nev = self.dry_events(lambda: self.invoke_producer(op))
+                op["fault"] = {"kind": fkind, "at": self.pick_fault_event(rng, nev),
+                               "hold": rng.randint(0, sw["hold_max"])}
+                self.ctx.probe("dry_runs")
         else:
             self.gen_env(rng, op)
             readable = sorted(h for h, d in self.handles.items() if not d["stale"] and d["path"] != op["path"]
@@ -395,7 +405,7 @@ class World(WorldBase):
         self.raise_nested()
         tag = f"produce:{kind}"
         if exc is not None:
-            if fired and fired[0] in ("interrupt", "oserror_write"):
+            if fired and fired[0] in ("interrupt", "oserror_write") + LINE_FAULTS:
                 # the cancelled / failed call: its file is un-acknowledged, nothing is judged
                 hold = fault.get("hold", 0)
                 if hold > 0:
@@ -566,7 +576,7 @@ class World(WorldBase):
         self.raise_nested()
         tag = f"read_frame:{fi['kind']}"
         if exc is not None:
-            if fired and fired[0] in ("oserror_read", "interrupt"):
+            if fired and fired[0] in ("oserror_read", "interrupt") + LINE_FAULTS:
                 # the failed read: the handle's position is unknown from here on
                 self.drop_last()
                 d["stale"] = True
